@@ -51,7 +51,7 @@ func isErrorCtor(c *ssa.CallCommon) bool {
 		return false
 	}
 	pk := funcPkgPath(f)
-	return pk == "errors" && f.Name() == "New" || pk == "fmt" && f.Name() == "Errorf"
+	return pk == "errors" && core.FuncName(f) == "New" || pk == "fmt" && core.FuncName(f) == "Errorf"
 }
 
 // definitelyNonNilError: a load of a package-level variable of type error
@@ -199,7 +199,7 @@ func R12(p *core.Prog) *core.Result {
 	// (c) number class of forwarders, module wide
 	nfw := 0
 	for _, f := range p.ModFuncs() {
-		if f.Signature.Recv() == nil || !isNumEvent(f.Name()) {
+		if f.Signature.Recv() == nil || !isNumEvent(core.FuncName(f)) {
 			continue
 		}
 		// value parameter: last parameter
@@ -222,7 +222,7 @@ func R12(p *core.Prog) *core.Result {
 				if c.IsInvoke() {
 					name = c.Method.Name()
 				} else if sc := c.StaticCallee(); sc != nil && sc.Signature.Recv() != nil {
-					name = sc.Name()
+					name = core.FuncName(sc)
 				}
 				if !isNumEvent(name) || len(c.Args) == 0 {
 					continue
@@ -364,7 +364,7 @@ func ignoreFamily(p *core.Prog, r *core.Result) []*types.Named {
 				if sc == nil {
 					continue
 				}
-				if sc.Name() == "push" && sc.Signature.Recv() != nil && strings.Contains(sc.Signature.Recv().Type().String(), "unfolderStack") && len(c.Args) == 2 {
+				if core.FuncName(sc) == "push" && sc.Signature.Recv() != nil && strings.Contains(sc.Signature.Recv().Type().String(), "unfolderStack") && len(c.Args) == 2 {
 					if mi, ok := c.Args[1].(*ssa.MakeInterface); ok {
 						if n := namedOf(mi.X.Type()); n != nil && !fam[n] {
 							fam[n] = true
@@ -382,7 +382,7 @@ func ignoreFamily(p *core.Prog, r *core.Result) []*types.Named {
 					continue
 				}
 				// follow wrappers / bound methods / initState helpers inside gotype
-				if p.InModule(sc) && (sc.Name() == "initState" || sc.Synthetic != "" || strings.HasPrefix(sc.Name(), "initState")) {
+				if p.InModule(sc) && (core.FuncName(sc) == "initState" || sc.Synthetic != "" || strings.HasPrefix(core.FuncName(sc), "initState")) {
 					add(sc)
 				}
 			}
